@@ -6,6 +6,7 @@
 -/
 import QV.Proofs.Writer
 import QV.Proofs.Compress
+import QV.Proofs.CompressC
 
 namespace QV.Writer
 open QV QV.Wire
@@ -140,6 +141,81 @@ theorem labelStartsFrom_ge (c : Nat) (ls : List Label) : ∀ g ∈ labelStartsFr
     · have := ih _ g hg
       simp; omega
 
+/-- the chunk-disciplined version of `literal_chain`: labels stored literally at `c`, inside a chunk
+    that starts at `a ≤ c`, followed by something that `Hop`s to a chunk-disciplined stored name —
+    in the same chunk, or below the start of the chunk -/
+theorem literal_chainC {G : Nat → Prop} {oct : Bytes} {cur a : Nat} {tail : List Label} {pe cs' : Nat} :
+    ∀ (ls : List Label) (c : Nat), a ≤ c → BytesAt oct c (ls.flatMap WName.encLabel) → LabelsWF ls →
+      (∀ g ∈ labelStartsFrom c ls, G g) → Hop oct cur (c + encLen ls) pe →
+      ((pe = c + encLen ls ∧ cs' = a) ∨ (pe < a ∧ cs' = pe)) → NameAtC G oct cur cs' pe tail →
+      ls ≠ [] → NameAtC G oct cur a c (ls ++ tail) := by
+  intro ls
+  induction ls with
+  | nil => intro c _ _ _ _ _ _ _ hne; exact absurd rfl hne
+  | cons l ls ih =>
+    intro c hac hb hwf hg hop hch hn _
+    have hl := hwf l List.mem_cons_self
+    simp only [List.flatMap_cons, WName.encLabel, List.cons_append] at hb
+    obtain ⟨hb0, hb1⟩ := bytesAt_cons hb
+    obtain ⟨hb2, hb3⟩ := bytesAt_append hb1
+    have hd : (oct.extract (c + 1) (c + 1 + l.length)).toList = l := bytesAt_extract hb2
+    have hgc : G c := hg c (by simp [labelStartsFrom])
+    have hop' : Hop oct cur (c + 1 + l.length + encLen ls) pe := by
+      rw [encLen_cons] at hop
+      rw [show c + 1 + l.length + encLen ls = c + (1 + l.length + encLen ls) by omega]; exact hop
+    cases hls : ls with
+    | nil =>
+      subst hls
+      simp only [encLen_nil, Nat.add_zero] at hop'
+      have hch' : (pe = c + 1 + l.length ∧ cs' = a) ∨ (pe < a ∧ cs' = pe) := by
+        rcases hch with ⟨e1, e2⟩ | h2
+        · left; rw [encLen_cons, encLen_nil] at e1; exact ⟨by omega, e2⟩
+        · right; exact h2
+      exact .label hac hgc hl.1 hl.2 hb0 hd hop' hch' hn
+    | cons l2 ls2 =>
+      have hch' : (pe = c + 1 + l.length + encLen ls ∧ cs' = a) ∨ (pe < a ∧ cs' = pe) := by
+        rcases hch with ⟨e1, e2⟩ | h2
+        · left; rw [encLen_cons] at e1; exact ⟨by omega, e2⟩
+        · right; exact h2
+      have hrest := ih (c + 1 + l.length) (by omega) hb3 (fun x hx => hwf x (List.mem_cons_of_mem _ hx))
+        (fun g hg' => hg g (by simp [labelStartsFrom]; right; rw [show c + l.length + 1 = c + 1 + l.length by omega]; exact hg'))
+        hop' hch' hn (by rw [hls]; simp)
+      obtain ⟨_, hlt, b, hbq, hnp⟩ := nameAt_start (nameAtC_forget hrest)
+      rw [← hls]
+      exact .label hac hgc hl.1 hl.2 hb0 hd (.here hlt hbq hnp) (Or.inl ⟨rfl, rfl⟩) hrest
+
+/-- every label start of the literal part begins a chunk-disciplined stored name that is a suffix
+    of the whole -/
+theorem literal_allC {G : Nat → Prop} {oct : Bytes} {cur a : Nat} {tail : List Label} {pe cs' : Nat} :
+    ∀ (ls : List Label) (c : Nat), a ≤ c → BytesAt oct c (ls.flatMap WName.encLabel) → LabelsWF ls →
+      (∀ g ∈ labelStartsFrom c ls, G g) → Hop oct cur (c + encLen ls) pe →
+      ((pe = c + encLen ls ∧ cs' = a) ∨ (pe < a ∧ cs' = pe)) → NameAtC G oct cur cs' pe tail →
+      ∀ g ∈ labelStartsFrom c ls, ∃ ls', NameAtC G oct cur g g ls' ∧ encLen ls' ≤ encLen ls + encLen tail := by
+  intro ls
+  induction ls with
+  | nil => intro c _ _ _ _ _ _ _ g hg; simp [labelStartsFrom] at hg
+  | cons l ls ih =>
+    intro c hac hb hwf hg hop hch hn g hgm
+    simp only [labelStartsFrom, List.mem_cons] at hgm
+    rcases hgm with rfl | hgm
+    · have h2 := literal_chainC (l :: ls) g hac hb hwf hg hop hch hn (by simp)
+      exact ⟨_, nameAtC_mono h2 hac (Nat.le_refl _), by rw [encLen_append]; exact Nat.le_refl _⟩
+    · simp only [List.flatMap_cons, WName.encLabel, List.cons_append] at hb
+      obtain ⟨_, hb1⟩ := bytesAt_cons hb
+      obtain ⟨_, hb3⟩ := bytesAt_append hb1
+      have hop' : Hop oct cur (c + 1 + l.length + encLen ls) pe := by
+        rw [encLen_cons] at hop
+        rw [show c + 1 + l.length + encLen ls = c + (1 + l.length + encLen ls) by omega]; exact hop
+      have hch' : (pe = c + 1 + l.length + encLen ls ∧ cs' = a) ∨ (pe < a ∧ cs' = pe) := by
+        rcases hch with ⟨e1, e2⟩ | h2
+        · left; rw [encLen_cons] at e1; exact ⟨by omega, e2⟩
+        · right; exact h2
+      rw [show c + l.length + 1 = c + 1 + l.length by omega] at hgm
+      obtain ⟨ls', h1, h2⟩ := ih (c + 1 + l.length) (by omega) hb3 (fun x hx => hwf x (List.mem_cons_of_mem _ hx))
+        (fun g' hg' => hg g' (by simp [labelStartsFrom]; right; rw [show c + l.length + 1 = c + 1 + l.length by omega]; exact hg'))
+        hop' hch' hn g hgm
+      exact ⟨ls', h1, by rw [encLen_cons]; omega⟩
+
 /-! ### the anchor invariant -/
 
 /-- the recorded label starts of a state -/
@@ -158,6 +234,10 @@ def Den (s : State) (p : Prior) (n : WName) : Prop :=
 def AnchorOK (s : State) (a : Option Prior) : Prop :=
   ∀ p, a = some p → 0 < p.ptr ∧ p.ptr ≤ Gen.POINTER_MAX ∧ PriorOK (GL s) s.octets s.cursor p
 
+/-- a chunk-disciplined name of at most 255 octets is stored at the recorded label start `g` -/
+def CStored (s : State) (g : Nat) : Prop :=
+  ∃ ls, NameAtC (GL s) s.octets s.cursor g g ls ∧ encLen ls + 1 ≤ 255
+
 /-- the working invariant of the name-writing routines -/
 structure WInv (s : State) : Prop where
   c12 : 12 ≤ s.cursor
@@ -168,6 +248,9 @@ structure WInv (s : State) : Prop where
   qn : AnchorOK s s.qname
   ow : AnchorOK s s.mostRecentOwner
   rd : AnchorOK s s.mostRecentNameInRdata
+  /-- every recorded label start begins a name that the RFC 1035 §4.1.4 decoder can read: pointers
+      go below the start of the chunk they end, and the expanded name is at most 255 octets -/
+  clabs : ∀ g ∈ s.gLabels, CStored s g
 
 theorem den_priorOK {s : State} {p : Prior} {n : WName} (h : Den s p n) :
     PriorOK (GL s) s.octets s.cursor p := by
@@ -180,6 +263,11 @@ theorem storedAt_ext {s s' : State} (e : Ext s s') {p : Nat} {ls : List Label}
     (h : StoredAt s p ls) : StoredAt s' p ls :=
   nameAt_frame (lo := 0) h (fun x hx => e.glab x hx) (fun _ _ => Nat.zero_le _)
     (fun i _ hi => e.pre i hi) e.cur
+
+theorem cstored_ext {s s' : State} (e : Ext s s') {g : Nat} (h : CStored s g) : CStored s' g := by
+  obtain ⟨ls, h1, h2⟩ := h
+  exact ⟨ls, nameAtC_frame (lo := 0) h1 (fun x hx => e.glab x hx) (fun _ _ => Nat.zero_le _)
+    (fun i _ hi => e.pre i hi) e.cur, h2⟩
 
 theorem den_ext {s s' : State} (e : Ext s s') {p : Prior} {n : WName} (h : Den s p n) : Den s' p n := by
   obtain ⟨h1, h2, h3, ls, h4, h5⟩ := h
@@ -198,7 +286,7 @@ theorem winv_ext {s s' : State} (h : WInv s) (e : Ext s s') (hg : s'.gLabels = s
     (hq : s'.qname = s.qname) (ho : s'.mostRecentOwner = s.mostRecentOwner)
     (hr : s'.mostRecentNameInRdata = s.mostRecentNameInRdata) : WInv s' := by
   refine ⟨by have := e.cur; have := h.c12; omega, by rw [e.available]; exact e.avail h.cur_av,
-    by rw [e.available, e.size]; exact h.av_size, by rw [hg]; exact h.g12, ?_, ?_, ?_, ?_⟩
+    by rw [e.available, e.size]; exact h.av_size, by rw [hg]; exact h.g12, ?_, ?_, ?_, ?_, ?_⟩
   · intro g hgm
     rw [hg] at hgm
     obtain ⟨ls, hl⟩ := h.labs g hgm
@@ -206,6 +294,9 @@ theorem winv_ext {s s' : State} (h : WInv s) (e : Ext s s') (hg : s'.gLabels = s
   · rw [hq]; exact anchorOK_ext e h.qn
   · rw [ho]; exact anchorOK_ext e h.ow
   · rw [hr]; exact anchorOK_ext e h.rd
+  · intro g hgm
+    rw [hg] at hgm
+    exact cstored_ext e (h.clabs g hgm)
 
 /-- **the pointer log is sound (C13)**: every compression pointer emitted so far points strictly
     backwards, lies entirely below the cursor, has a target in pointer range that is a recorded
@@ -260,7 +351,7 @@ theorem winv_push {s : State} (h : WInv s) (d : List UInt8) (hd : d.length ≤ s
   have e := ext_push s d (by have := h.cur_av; omega)
   have w := winv_ext h e rfl rfl rfl rfl
   exact ⟨w.c12, by have := h.cur_av; show s.cursor + d.length ≤ s.available; omega, w.av_size, w.g12,
-    w.labs, w.qn, w.ow, w.rd⟩
+    w.labs, w.qn, w.ow, w.rd, w.clabs⟩
 
 theorem labelsMatch_refl (mode : CMode) (ls : List Label) : labelsMatch mode ls ls = true := by
   induction ls with
@@ -305,6 +396,27 @@ theorem labelsMatch_append {mode : CMode} {a b c d : List Label} (h1 : labelsMat
     | cons y ys =>
       simp only [labelsMatch, Bool.and_eq_true, List.cons_append] at h1 ⊢
       exact ⟨h1.1, ih h1.2⟩
+
+theorem labelMatch_length {mode : CMode} {a b : Label} (h : labelMatch mode a b = true) :
+    a.length = b.length := by
+  unfold labelMatch at h
+  split at h
+  · simp at h; rw [h]
+  · unfold WName.labelEqIgnoreCase at h
+    have := congrArg List.length (eq_of_beq h)
+    simpa using this
+
+theorem labelsMatch_encLen {mode : CMode} {a b : List Label} (h : labelsMatch mode a b = true) :
+    encLen a = encLen b := by
+  induction a generalizing b with
+  | nil => cases b with
+    | nil => rfl
+    | cons _ _ => simp [labelsMatch] at h
+  | cons x xs ih => cases b with
+    | nil => simp [labelsMatch] at h
+    | cons y ys =>
+      simp only [labelsMatch, Bool.and_eq_true] at h
+      rw [encLen_cons, encLen_cons, ih h.2, labelMatch_length h.1]
 
 theorem wf_labels {n : WName} (h : n.WF) : LabelsWF n.labels := by
   intro l hl
@@ -400,7 +512,7 @@ theorem writeUncompressedName_spec (n : WName) (s : State) (h : WInv s) (hn : n.
       simpa [StoredAt, hl] using h2
   have hw : WInv s' := by
     refine ⟨by rw [hcur]; omega, by rw [hcur, e.available]; omega, by rw [e.available, e.size]; exact hsz,
-      ?_, ?_, ?_, ?_, ?_⟩
+      ?_, ?_, ?_, ?_, ?_, ?_⟩
     · intro g hg
       rw [hgl] at hg
       simp only [List.cons_append, List.nil_append, List.mem_cons, List.mem_append, List.mem_reverse] at hg
@@ -419,6 +531,18 @@ theorem writeUncompressedName_spec (n : WName) (s : State) (h : WInv s) (hn : n.
     · rw [show s'.qname = s.qname by rw [← hs']; rfl]; exact anchorOK_ext e h.qn
     · rw [show s'.mostRecentOwner = s.mostRecentOwner by rw [← hs']; rfl]; exact anchorOK_ext e h.ow
     · rw [show s'.mostRecentNameInRdata = s.mostRecentNameInRdata by rw [← hs']; rfl]; exact anchorOK_ext e h.rd
+    · intro g hg
+      rw [hgl] at hg
+      simp only [List.cons_append, List.nil_append, List.mem_cons, List.mem_append, List.mem_reverse] at hg
+      have hrootC : NameAtC (GL s') s'.octets s'.cursor s.cursor (s.cursor + encLen n.labels) [] :=
+        .root (by omega) hGend (by rw [hcur]; omega) h0
+      have h255 : n.wire.length ≤ 255 := hn.2
+      rcases hg with rfl | hg | hg
+      · exact ⟨[], .root (Nat.le_refl _) hGend (by rw [hcur]; omega) h0, by simp⟩
+      · obtain ⟨ls', h1, h2⟩ := literal_allC (a := s.cursor) (cs' := s.cursor) n.labels s.cursor (Nat.le_refl _)
+          hb'.1 hwf hGst hhop (Or.inl ⟨rfl, rfl⟩) hrootC g hg
+        exact ⟨ls', h1, by rw [encLen_nil] at h2; omega⟩
+      · exact cstored_ext e (h.clabs g hg)
   refine ⟨hw, ?_, by rw [← hs']; rfl, by rw [← hs']; rfl, by rw [← hs']; rfl⟩
   intro q hq
   rw [← hp] at hq
@@ -466,7 +590,8 @@ theorem literal_ptr_state {s s3 : State} (h : WInv s) (e : Ext s s3) {pre tail :
     (hcur : s3.cursor = s.cursor + encLen pre + 2)
     (hgl : s3.gLabels = (labelStartsFrom s.cursor pre).reverse ++ s.gLabels)
     (hq : s3.qname = s.qname) (ho : s3.mostRecentOwner = s.mostRecentOwner)
-    (hr : s3.mostRecentNameInRdata = s.mostRecentNameInRdata) :
+    (hr : s3.mostRecentNameInRdata = s.mostRecentNameInRdata)
+    (hbound : pre ≠ [] → encLen pre + encLen tail + 1 ≤ 255) :
     WInv s3 ∧ ∃ q, Hop s3.octets s3.cursor s.cursor q ∧ StoredAt s3 q (pre ++ tail) ∧
       (pre ≠ [] → q = s.cursor) := by
   have htail' : StoredAt s3 pp tail := storedAt_ext e htail
@@ -489,7 +614,7 @@ theorem literal_ptr_state {s s3 : State} (h : WInv s) (e : Ext s s3) {pre tail :
   refine ⟨?_, q, hq1, hq2, hq3⟩
   have hc12 := h.c12; have hav := h.cur_av
   refine ⟨by rw [hcur]; omega, by rw [e.available]; exact e.avail hav,
-    by rw [e.available, e.size]; exact h.av_size, ?_, ?_, ?_, ?_, ?_⟩
+    by rw [e.available, e.size]; exact h.av_size, ?_, ?_, ?_, ?_, ?_, ?_⟩
   · intro g hg
     rw [hgl] at hg
     simp only [List.mem_append, List.mem_reverse] at hg
@@ -506,6 +631,22 @@ theorem literal_ptr_state {s s3 : State} (h : WInv s) (e : Ext s s3) {pre tail :
   · rw [hq]; exact anchorOK_ext e h.qn
   · rw [ho]; exact anchorOK_ext e h.ow
   · rw [hr]; exact anchorOK_ext e h.rd
+  · intro g hg
+    rw [hgl] at hg
+    simp only [List.mem_append, List.mem_reverse] at hg
+    rcases hg with hg | hg
+    · obtain ⟨ls', hc, _⟩ := h.clabs pp (nameAt_start htail).1
+      have := nameAtC_unique hc htail
+      subst this
+      have hc3 : NameAtC (GL s3) s3.octets s3.cursor pp pp ls' :=
+        nameAtC_frame (lo := 0) hc (fun x hx => e.glab x hx) (fun _ _ => Nat.zero_le _)
+          (fun i _ hi => e.pre i hi) e.cur
+      obtain ⟨ls2, h1, h2⟩ := literal_allC (a := s.cursor) (cs' := pp) pre s.cursor (Nat.le_refl _) hbl hwf hGst hhop
+        (Or.inr ⟨hpplt, rfl⟩) hc3 g hg
+      have hne : pre ≠ [] := by intro hnil; rw [hnil] at hg; simp [labelStartsFrom] at hg
+      have := hbound hne
+      exact ⟨ls2, h1, by omega⟩
+    · exact cstored_ext e (h.clabs g hg)
 
 
 theorem tryPush_eq' (d : List UInt8) (s : State) (h1 : s.cursor ≤ s.available)
@@ -566,7 +707,7 @@ theorem writeCompressedUnhintedName_spec (n : WName) (s : State) (h : WInv s) (h
         obtain ⟨hw, _⟩ := literal_ptr_state (pre := []) h e (fun _ hl => by cases hl) hst hmax'
           (by simpa [pushed] using bytesAt_writeAt s.octets s.cursor (ptrBytes m.priorPointer)
                 (by have : (ptrBytes m.priorPointer).length = 2 := rfl; omega))
-          (by simp [pushed, encLen]; rfl) (by simp [pushed, labelStartsFrom]) rfl rfl rfl
+          (by simp [pushed, encLen]; rfl) (by simp [pushed, labelStartsFrom]) rfl rfl rfl (fun hne => absurd rfl hne)
         refine ⟨hw, ?_, rfl, rfl, rfl⟩
         intro q hq
         rw [← hp] at hq
@@ -612,6 +753,14 @@ theorem writeCompressedUnhintedName_spec (n : WName) (s : State) (h : WInv s) (h
             (by simp only [pushed, c2, hlen1]; rfl) (by simp only [pushed, g2])
             (by simp only [pushed]; rw [← hs2]; rfl) (by simp only [pushed]; rw [← hs2]; rfl)
             (by simp only [pushed]; rw [← hs2]; rfl)
+            (fun _ => by
+              have h255 : n.wire.length ≤ 255 := hn.2
+              have hw := wire_length n
+              have hsplit : encLen n.labels = encLen (List.take m.startColumn n.labels) +
+                  encLen (List.drop m.startColumn n.labels) := by
+                rw [← encLen_append, List.take_append_drop]
+              have := labelsMatch_encLen hmatch
+              omega)
           have hne : List.take m.startColumn n.labels ≠ [] := by
             intro hnil
             have := congrArg List.length hnil
@@ -664,7 +813,7 @@ theorem pushHinted_spec (q : Prior) (n : WName) (s : State) (h : WInv s) (hd : D
     obtain ⟨hw, _⟩ := literal_ptr_state (pre := []) h e (fun _ hl => by cases hl) hst hmax
       (by simpa [pushed] using bytesAt_writeAt s.octets s.cursor (ptrBytes q.ptr)
             (by have : (ptrBytes q.ptr).length = 2 := rfl; omega))
-      (by simp [pushed, encLen]; rfl) (by simp [pushed, labelStartsFrom]) rfl rfl rfl
+      (by simp [pushed, encLen]; rfl) (by simp [pushed, labelStartsFrom]) rfl rfl rfl (fun hne => absurd rfl hne)
     refine ⟨hw, ?_, rfl, rfl, rfl⟩
     intro q' hq'
     rw [← hp] at hq'
